@@ -170,7 +170,7 @@ class WriterHist(Engine):
                  "traj": rw.random() < 0.2}
         ops = []
         outs = ["get_domain", "get_problem", "get_plan", "write_domain", "write_problem", "write_plan"]
-        nops = ro.randint(6, 20)
+        nops = ro.randint(6, 20) * (stream(seed, "size").choice([1, 1, 1, 2, 3]) if tier == "thorough" else 1)
         for i in range(nops):
             r = ro.random()
             if r < 0.55:
